@@ -24,10 +24,10 @@ def run(ctx):
     import gen.interval_set as g
     if ctx.tier == "thorough" or ctx.escalated:
         ctx.exhaustive = True
-        sizes = {str(l): g.closure(l, list(range(8)))[1] for l in (None, 1, 2, 3, 5)}
+        sizes = {str(l): g.closure(l, list(range(10)))[1] for l in (None, 1, 2, 3, 5)}
         ctx.extra["exhaustive_ivset"] = {
             "what": "breadth-first closure of the state graph: every (reachable state, op) pair for ops = ins/rm/insert_front of every "
-                    "sub-interval of {0..7} + pop_min, limits none/1/2/3/5, until no new state appears; the complete state is printed and "
+                    "sub-interval of {0..9} + pop_min, limits none/1/2/3/5, until no new state appears; the complete state is printed and "
                     "checked after every op, hence every op sequence of any length over this alphabet is covered; plus all 2^14 pairs of "
                     "subsets of {0..6} under union/difference/intersection/intersection_iter",
             "reachable_states_per_limit": sizes}
